@@ -11,7 +11,7 @@ import (
 )
 
 func init() {
-	processFn = func(in io.Reader, out io.Writer, c renderCfg, parse bool) error {
+	processFn = guarded(func(in io.Reader, out io.Writer, c renderCfg, parse bool) error {
 		p := &Palette{}
 		if c.colour {
 			p = &defaultPalette
@@ -31,7 +31,7 @@ func init() {
 			pf = fullPath
 		}
 		return process(in, out, p, c.level, pf, parse, c.rebase, "", filter, match)
-	}
+	})
 	processKind = "in-package process()"
 	processInProcess = true
 }
